@@ -15,7 +15,7 @@ pub struct BytesSpec {
     pub seed: u32,
 }
 
-pub const N_CLASSES: u8 = 10;
+pub const N_CLASSES: u8 = 11;
 
 pub fn class_name(c: u8) -> &'static str {
     match c % N_CLASSES {
@@ -28,7 +28,8 @@ pub fn class_name(c: u8) -> &'static str {
         6 => "nul-embedded",
         7 => "uuid-text",
         8 => "gzip-member",
-        _ => "zlib-stream",
+        9 => "zlib-stream",
+        _ => "common-prefix",
     }
 }
 
@@ -138,6 +139,18 @@ impl BytesSpec {
                     out[0] = b'a' + (self.seed % 26) as u8;
                 }
             }
+            10 => {
+                // the first 4 KiB are the same for every seed, the rest depends on it: two such
+                // payloads of one length agree in length and beginning and differ further on
+                while out.len() < len.min(4096) {
+                    out.push(b'A' + (out.len() % 23) as u8);
+                }
+                while out.len() < len {
+                    let v = xorshift(&mut st).to_le_bytes();
+                    let take = (len - out.len()).min(8);
+                    out.extend_from_slice(&v[..take]);
+                }
+            }
             8 | 9 => {
                 // a complete, valid compressed stream (gzip member / zlib stream) followed by
                 // filler: payloads are opaque, whatever well-known format they happen to look like
@@ -227,6 +240,10 @@ pub fn client_uuid(salt: u32, idx: u8) -> Uuid {
                 b[15] = 0xF0 | (idx & 0x0F);
                 b[14] = 0xFF - (idx >> 4);
                 return Uuid::from_bytes(b);
+            }
+            14 if idx == 0 => {
+                // the all-zero id is an id like any other
+                return Uuid::nil();
             }
             13 => {
                 // equal in everything but the first byte
